@@ -137,9 +137,11 @@ type wguard struct {
 
 // resolver maps expressions inside an arm to field paths rooted at the switch variable.
 type resolver struct {
-	w      *walkCtx
-	root   types.Object
-	locals map[types.Object]localDef
+	w       *walkCtx
+	root    types.Object
+	locals  map[types.Object]localDef
+	helpers map[types.Object]*ast.FuncDecl // package-level functions of js that (transitively) call Walk
+	depth   int
 }
 
 type localDef struct {
@@ -214,6 +216,29 @@ func (rs *resolver) collect(stmts []ast.Stmt, guards []wguard, out *[]wcall, bad
 			var fobj types.Object
 			if id, ok := ast.Unparen(ce.Fun).(*ast.Ident); ok {
 				fobj = info.Uses[id]
+			}
+			if hd, isHelper := rs.helpers[fobj]; isHelper && fobj != rs.w.walkFn && rs.depth < 3 && hd.Body != nil {
+				// a helper that walks part of the node (walkBlock(v, n.Body), walkList(v, n.List)): its body is read
+				// with its parameters bound to the field paths of the arguments
+				child := &resolver{w: rs.w, root: rs.root, locals: map[types.Object]localDef{}, helpers: rs.helpers, depth: rs.depth + 1}
+				for k, v := range rs.locals {
+					child.locals[k] = v
+				}
+				pi := 0
+				for _, fld := range hd.Type.Params.List {
+					for _, nm := range fld.Names {
+						if pi < len(ce.Args) {
+							if pth, c, ok := rs.resolve(ce.Args[pi]); ok {
+								child.locals[info.Defs[nm]] = localDef{path: pth, copyOf: c, ok: true}
+							}
+						}
+						pi++
+					}
+				}
+				var sub []wcall
+				child.collect(hd.Body.List, g, &sub, nil)
+				*out = append(*out, sub...)
+				return true
 			}
 			if fobj != rs.w.walkFn || len(ce.Args) != 2 {
 				return true
@@ -298,7 +323,9 @@ func (rs *resolver) collect(stmts []ast.Stmt, guards []wguard, out *[]wcall, bad
 		case *ast.ReturnStmt, *ast.IncDecStmt, *ast.EmptyStmt:
 			visitExprCalls(s, guards)
 		default:
-			*bad = append(*bad, fmt.Sprintf("statement kind %T at %s is outside the recognised idioms", st, rs.w.r.Prog.Position(st.Pos())))
+			if bad != nil {
+				*bad = append(*bad, fmt.Sprintf("statement kind %T at %s is outside the recognised idioms", st, rs.w.r.Prog.Position(st.Pos())))
+			}
 			visitExprCalls(s, append(append([]wguard{}, guards...), wguard{kind: "other", desc: fmt.Sprintf("%T", st)}))
 		}
 	}
@@ -340,10 +367,69 @@ func runWalk(r *core.Run) {
 		return
 	}
 	w := &walkCtx{r: r, pk: pk, inode: inodeObj.Type().Underlying().(*types.Interface), walkFn: pk.Types.Scope().Lookup("Walk")}
+	// helpers: package-level functions of js (other than Walk) whose body calls Walk or another helper
+	helpers := map[types.Object]*ast.FuncDecl{}
+	for changed := true; changed; {
+		changed = false
+		for _, f := range pk.Syntax {
+			for _, d := range f.Decls {
+				hd, ok := d.(*ast.FuncDecl)
+				if !ok || hd.Recv != nil || hd.Body == nil || hd == fd {
+					continue
+				}
+				obj := pk.TypesInfo.Defs[hd.Name]
+				if _, done := helpers[obj]; done {
+					continue
+				}
+				calls := false
+				ast.Inspect(hd.Body, func(n ast.Node) bool {
+					if ce, ok := n.(*ast.CallExpr); ok {
+						if id, ok := ast.Unparen(ce.Fun).(*ast.Ident); ok {
+							o := pk.TypesInfo.Uses[id]
+							if o == w.walkFn {
+								calls = true
+							} else if _, isH := helpers[o]; isH {
+								calls = true
+							}
+						}
+					}
+					return true
+				})
+				if calls {
+					helpers[obj] = hd
+					changed = true
+				}
+			}
+		}
+	}
 	var ts *ast.TypeSwitchStmt
 	for _, st := range fd.Body.List {
 		if s, ok := st.(*ast.TypeSwitchStmt); ok {
 			ts = s
+		}
+	}
+	if ts == nil {
+		// the dispatch may live in a helper that Walk calls with the node (Walk keeps Enter/Exit, walkChildren the switch)
+		for _, st := range fd.Body.List {
+			es, ok := st.(*ast.ExprStmt)
+			if !ok {
+				continue
+			}
+			ce, ok := es.X.(*ast.CallExpr)
+			if !ok {
+				continue
+			}
+			id, ok := ast.Unparen(ce.Fun).(*ast.Ident)
+			if !ok {
+				continue
+			}
+			if hd, isH := helpers[pk.TypesInfo.Uses[id]]; isH {
+				for _, hs := range hd.Body.List {
+					if s, ok := hs.(*ast.TypeSwitchStmt); ok {
+						ts = s
+					}
+				}
+			}
 		}
 	}
 	if ts == nil {
@@ -437,7 +523,7 @@ func runWalk(r *core.Run) {
 			}
 			continue
 		}
-		rs := &resolver{w: w, root: root, locals: map[types.Object]localDef{}}
+		rs := &resolver{w: w, root: root, locals: map[types.Object]localDef{}, helpers: helpers}
 		var calls []wcall
 		var bad []string
 		rs.collect(cc.Body, nil, &calls, &bad)
@@ -577,8 +663,29 @@ func runWalkOrder(r *core.Run) {
 		return
 	}
 	vParam, nParam := fn.Params[0], fn.Params[1]
+	// walk helpers: module functions (other than Walk) that call Walk, directly or through other helpers
+	helpers := map[*ssa.Function]bool{}
+	for changed := true; changed; {
+		changed = false
+		for _, f := range allModuleFuncs(r) {
+			if f == fn || helpers[f] || core.RelPkg(fnPkg(f)) != "js" || f.Signature.Recv() != nil {
+				continue
+			}
+			for _, b := range f.Blocks {
+				for _, in := range b.Instrs {
+					if c, ok := in.(*ssa.Call); ok {
+						if g := c.Call.StaticCallee(); g != nil && (g == fn || helpers[g]) && !helpers[f] {
+							helpers[f] = true
+							changed = true
+						}
+					}
+				}
+			}
+		}
+	}
 	var enters, exits []ssa.CallInstruction
-	var recs []*ssa.Call
+	var recs []*ssa.Call // calls in Walk that descend: Walk itself or a walk helper
+	total := 0
 	for _, b := range fn.Blocks {
 		for _, in := range b.Instrs {
 			ci, ok := in.(ssa.CallInstruction)
@@ -592,13 +699,49 @@ func runWalkOrder(r *core.Run) {
 			if cc.IsInvoke() && cc.Method.Name() == "Exit" {
 				exits = append(exits, ci)
 			}
-			if c, ok := in.(*ssa.Call); ok && cc.StaticCallee() == fn {
+			if c, ok := in.(*ssa.Call); ok && (cc.StaticCallee() == fn || helpers[cc.StaticCallee()]) {
 				recs = append(recs, c)
+				if cc.StaticCallee() == fn {
+					total++
+				}
 			}
 		}
 	}
-	r.Count("recursive Walk calls", len(recs))
-	r.Floor("recursive Walk calls", len(recs), 70)
+	// inside helpers: no Enter/Exit, and every descent passes on the visitor the helper was given
+	for h := range helpers {
+		var vis ssa.Value
+		for _, p := range h.Params {
+			if types.Identical(p.Type(), vParam.Type()) {
+				vis = p
+			}
+		}
+		for _, b := range h.Blocks {
+			for _, in := range b.Instrs {
+				ci, ok := in.(ssa.CallInstruction)
+				if !ok {
+					continue
+				}
+				cc := ci.Common()
+				if cc.IsInvoke() && (cc.Method.Name() == "Enter" || cc.Method.Name() == "Exit") {
+					r.Fail("Enter/Exit only in Walk", in.Pos(), fmt.Sprintf("%s calls %s: Enter and Exit must be issued once per node by Walk itself", fnLabel(h), cc.Method.Name()))
+				}
+				if g := cc.StaticCallee(); g != nil && (g == fn || helpers[g]) {
+					if g == fn {
+						total++
+					}
+					passes := false
+					for _, a := range cc.Args {
+						if vis != nil && a == vis {
+							passes = true
+						}
+					}
+					r.Check(passes, fmt.Sprintf("%s passes on its visitor", fnLabel(h)), in.Pos(), "", "a walk helper descends with a visitor other than the one it was given (the one Enter returned)")
+				}
+			}
+		}
+	}
+	r.Count("recursive Walk calls", total)
+	r.Floor("recursive Walk calls", total, 40)
 	if len(enters) != 1 {
 		r.Fail("single Enter", fn.Pos(), fmt.Sprintf("Walk calls Enter %d times; exactly one call per node is required", len(enters)))
 		return
@@ -666,7 +809,13 @@ func runWalkOrder(r *core.Run) {
 			r.Fail("child after Enter", c.Pos(), "a recursive Walk call is not dominated by a non-nil Enter result: a child may be visited before/without its parent")
 			bad++
 		}
-		if c.Call.Args[0] != ev {
+		usesEv := false
+		for _, a := range c.Call.Args {
+			if a == ev {
+				usesEv = true
+			}
+		}
+		if !usesEv {
 			r.Fail("child uses returned visitor", c.Pos(), "a recursive Walk call does not pass the visitor returned by Enter")
 			bad++
 		}
